@@ -185,6 +185,62 @@ theorem accepted_iff_in_range (t : BType) (v : Nat) :
       (isFinite v = true ∧ scaled (boundBits t).1 ≤ scaled v ∧ scaled v ≤ scaled (boundBits t).2) :=
   tryFrom_iff _ _ v (boundBits_finite t).1 (boundBits_finite t).2
 
+/-! ### the three routes -/
+
+/-- **the text route never yields a value outside the range**: whatever the string, what `FromStr`
+    returns is the parsed pattern itself, finite, with lo ≤ value ≤ hi -/
+theorem textRoute_in_range (t : BType) (s : String) (x : Nat)
+    (h : textRoute (boundBits t).1 (boundBits t).2 s = some x) :
+    isFinite x = true ∧ scaled (boundBits t).1 ≤ scaled x ∧ scaled x ≤ scaled (boundBits t).2 ∧
+    (parseRust s).bits? = some x := by
+  unfold textRoute at h
+  split at h
+  · rename_i b hb
+    have hx : x = b := by
+      unfold tryFromBits at h; split at h <;> simp_all
+    subst hx
+    exact ⟨((accepted_iff_in_range t x).mp h).1, ((accepted_iff_in_range t x).mp h).2.1,
+      ((accepted_iff_in_range t x).mp h).2.2, hb⟩
+  · simp at h
+
+/-- **the text route is the number route applied to the parsed value** (it accepts exactly the
+    strings whose correctly rounded value the number route accepts) -/
+theorem textRoute_eq_number_route (lo hi : Nat) (s : String) (b : Nat) (hb : (parseRust s).bits? = some b) :
+    textRoute lo hi s = tryFromBits lo hi b := by
+  simp [textRoute, hb]
+
+/-- **the JSON route agrees with the text route** on every string both grammars read to the same
+    pattern, for a type that carries `serde(try_from = "f64")` (all six do: `json_checked_all`):
+    a value too large for f64 is an error on the JSON route and an infinity - rejected - on the
+    text route -/
+theorem jsonRoute_eq_textRoute (lo hi : Nat) (hlo : isFinite lo = true) (hhi : isFinite hi = true)
+    (s : String) (h : (parseJson s).bits? = (parseRust s).bits?) :
+    jsonRoute true lo hi s = textRoute lo hi s := by
+  unfold jsonRoute textRoute
+  rw [h]
+  cases hb : (parseRust s).bits? with
+  | none => rfl
+  | some b =>
+    simp only
+    by_cases hf : isFinite b = true
+    · simp [hf]
+    · simp only [hf, Bool.not_false, if_true]
+      have hinf_or_nan : isInf b = true ∨ isNaN b = true := by
+        unfold isFinite at hf; unfold isInf isNaN
+        simp only [bne_iff_ne, ne_eq, Bool.not_eq_true, Bool.and_eq_true, beq_iff_eq] at *
+        by_cases hm : manBits b = 0
+        · left; simp_all
+        · right; simp_all
+      rcases hinf_or_nan with hi' | hn
+      · exact (inf_rejected lo hi b hlo hhi hi').symm
+      · exact (nan_rejected lo hi b hn).symm
+
+/-- without the attribute the JSON route would accept any finite number (the defect repaired by
+    166a3b7): the unchecked route returns the parsed pattern whatever the range -/
+theorem jsonRoute_unchecked (lo hi : Nat) (s : String) (b : Nat) (hb : (parseJson s).bits? = some b)
+    (hf : isFinite b = true) : jsonRoute false lo hi s = some b := by
+  simp [jsonRoute, hb, hf]
+
 -- non-vacuity / bounds included: 90.0 is a latitude, the next double above it is not, -0.0 is
 example : tryFromBits (boundBits .Latitude).1 (boundBits .Latitude).2 0x4056800000000000 = some 0x4056800000000000 := by decide +kernel
 example : tryFromBits (boundBits .Latitude).1 (boundBits .Latitude).2 0x4056800000000001 = none := by decide +kernel
